@@ -1,0 +1,5 @@
+//go:build !verif
+
+package ecdh
+
+func verifGate(string) {}
